@@ -33,6 +33,10 @@ pub fn build_pass_2(
     let eeprom_start_address = 0x0;
 
     for segment in pass1.segments {
+        // the gap in front of a segment is filled when something follows it
+        if segment.items.is_empty() {
+            continue;
+        }
         // TODO: Rewrite to correct ordering of segment offsets and sizes
         match segment.t {
             SegmentType::Code => {
